@@ -27,6 +27,7 @@ ASSUMPTIONS = [
     "files opened for writing are made unbuffered so every write() reaches the file at once (worst case)",
     "code that binds os functions at import time (from os import remove) would bypass the interception; torrentfile/edit.py does not",
 ]
+FUZZ_RUNS = 40000   # thorough tier: libFuzzer runs per campaign of the coverage-guided stage (vf/fuzz.py)
 BUDGET = {
     "quick": {"examples": 150, "workers": 8, "time_cap": 70},
     "thorough": {"examples": 5000, "workers": 14, "time_cap": 900},
